@@ -33,6 +33,10 @@ CHECKS = {
             "schedules act through the caller-supplied Persist and Marshal only; unrealisable decisions end a branch; exhaustive within the constants"),
     "C12": ("fault_enumeration", "7.C12", "enumeration on the real code of every fallible call position (Persist.Load, KeyCompare, Marshal, Unmarshal; pairs for comparison callbacks) of every operation on prepared trees; each run (result, tree observed through a fault-free view, retry) validated by TLC against TraceFaults.tla, whose normal outcomes come from the map model, ModelDiff and the walk oracle",
             "positions come from a dry run on an identically prepared tree; panics under a fault are counted, not judged; two recorded findings (Delete/shrink, Insert/grow) are matched by their input class"),
+    "C17": ("fault_enumeration", "7.C17", "the real file.Persist.Store run in a child process whose write is cut at every byte offset (killed inside write(2) by RLIMIT_FSIZE, or failing with EFBIG), then load / re-store / load; every run validated by TLC against TraceFile.tla; design level: TLC exhaustive run of FileStore.tla (syscall granularity, crashes, I/O errors, concurrent writers)",
+            "a crash is a process killed inside write(2); page-cache / fsync / directory-entry durability are assumptions of FileStore.tla"),
+    "C18": (MC, "7.C18", "TLC exhaustive run of Store.tla (3 clients, begin/end steps, injected errors, S3 key mapping; the mis-mapped variants must fail) + recorded Store/Load/concurrent-writer runs on the in-memory, file and S3 backends validated by TLC against TraceStore.tla",
+            "S3 is represented by a fake S3Interface recording bucket and key; file errors are injected through a missing base path"),
 }
 
 NOT_YET = {
